@@ -87,7 +87,7 @@ _CONTRACTS = ["contract:layout_util.rotate_array_via_roe_corner_from", "contract
               "contract:layout_util.region_after_extraction", "contract:layout_util.x0x1_after_extraction",
               "contract:Region2D.__init__", "contract:Region1D.__init__"]
 MIN_MONITORS = {"*": dict({c: 1 for c in _CONTRACTS}, **{
-    "rotate.array_is_corner_flip": 1, "rotate.commute": 1, "rotate.twice_identity": 1, "rotate.region_in_bounds": 1,
+    "rotate.array_is_corner_flip": 1, "rotate.commute": 1, "rotate.twice_identity": 1, "rotate.region_in_bounds": 1, "rotate.returns_region": 1, "valid.rotate_rejects_invalid": 1,
     "layout.rotated_from_roe_corner": 1, "layout.new_rotated_from.twice": 1, "layout.new_rotated_from.other_corner": 1, "layout.original_orientation_from": 1,
     "layout.extract_parallel_overscan": 1, "layout.extract_serial_overscan": 1, "layout.extracted_from": 1,
     "array2d.original_orientation": 1, "extract.overlap": 1, "extract.none_when_disjoint": 1,
